@@ -3,6 +3,7 @@ import SLModel.Lemmas.ISort
 /-!
 # Lemmas/Vector — helper lemmas about `Core/Vector` (used by `Props/C29`)
 -/
+set_option linter.unusedSectionVars false
 namespace SL.Vec
 open Scalar
 
